@@ -144,6 +144,7 @@ def run(facts, tier):
     c10_5(facts, res)
     c10_6(facts, res)
     c10_7(facts, res)
+    c10_8(facts, res)
     res.functions_analysed = 8
     return res
 
@@ -171,6 +172,43 @@ def c10_6(facts, res):
                             "names only" % f["path"], f["file"], calls[0].get("ln"), {}))
     if st["instances"] < 2:
         raise BrokenCheck("C10-6: %d callers of Context::expanded_name (floor 2)" % st["instances"])
+
+
+def c10_8(facts, res, rule="C10-8"):
+    """The default namespace of the caller's bindings applies to element names only: in `equal_qname` the exemption of an
+    unprefixed name test must hold for attribute nodes *and* namespace nodes (XPath 1.0 2.3: a QName in a node test is expanded
+    with the default namespace "for element names" only; the principal node type of the namespace axis is namespace).
+    Decided with enumflow over the kinds of XmlNode, node_type() evaluated per kind."""
+    import enumflow
+    import xpdispatch
+    st = res.rule(rule, instances=1)
+    f = facts.fn("xml_xpath::eval::equal_qname")
+    got = None
+    try:
+        dom = xpdispatch.node_kind_domain(facts)
+        fl = enumflow.Flow(dom, f)
+        for n in walk(f["body"]):
+            if n.get("k") == "Match" and n.get("src") == "Normal" and "QName" in str(n.get("scrutty", "")):
+                for arm in n["arms"]:
+                    if "guard" in arm and any(str(q.get("path", "")).endswith("QName::Unprefixed") for q in walk(arm["pat"])):
+                        got = fl.cond(arm["guard"])
+        if got is None:
+            # `if node is attribute-like { None } else { uri }` forms
+            for n in walk(f["body"]):
+                if n.get("k") == "If":
+                    c = fl.cond(n["cond"])
+                    if c is not None:
+                        got = c
+    except enumflow.Unknown as u:
+        raise BrokenCheck("%s: %s" % (rule, u))
+    ok = got is not None and {"Attribute", "Namespace"} <= got and "Element" not in got
+    res.oblige(1, ok)
+    res.sample({"rule": rule, "exempt_kinds": sorted(got) if got is not None else None})
+    if not ok:
+        res.add(Finding(rule, "equal_qname|default-namespace", "equal_qname applies the default namespace to unprefixed name tests on %s: the "
+                        "exemption must cover attribute and namespace nodes and nothing else (exempt now: %s)"
+                        % (sorted({"Attribute", "Namespace"} - (got or set())) or "elements", sorted(got) if got is not None else None),
+                        f["file"], f["line"], {}))
 
 
 def _flows_into_push(f, ctor_suffix):
